@@ -17,7 +17,14 @@ def strict_rule(chk, run, fn, construct, lower_tag, upper_tag=None):
     for tag, want_small in ((lower_tag, True), (upper_tag, False)):
         if tag is None:
             continue
-        hits = [e for e in evs if (tag in e.left.tags) != (tag in e.right.tags)]
+        # the bound on one side, the measure (an array, not a literal and not a count) on the other: `len(selected) == 0` is not a
+        # comparison against the bound although the count derives from it
+        def _is_cmp(e):
+            if (tag in e.left.tags) == (tag in e.right.tags):
+                return False
+            b, m = (e.left, e.right) if tag in e.left.tags else (e.right, e.left)
+            return not m.has_const() and "len-of" not in b.tags and m.kind != K_NONE
+        hits = [e for e in evs if _is_cmp(e)]
         if not hits:
             chk.ob("R-STRICT", "%s[%s]" % (construct, tag), "a comparison against %s exists" % tag, False,
                    derived="no comparison has exactly one side derived from %s" % tag, loc=run.fi.loc())
@@ -99,6 +106,8 @@ def run(chk):
             for e in r.events("compare", "eqsig.im.calc_brac_dur"):
                 if ("p:threshold" in e.left.tags) != ("p:threshold" in e.right.tags):
                     m = e.right if "p:threshold" in e.left.tags else e.left
+                    if m.has_const() or "len-of" in (e.left.tags if "p:threshold" in e.left.tags else e.right.tags):
+                        continue        # an emptiness test of the selection, not the mask
                     expect(chk, "R-REL", c + ".mask-operand", m, deg={R: 1}, parity={R: "even"}, sign="nonneg",
                            tags_has=["abs", "attr:_values"], loc=e.loc)
             # an explicit emptiness test of the exceedance set (instead of the IndexError handler) must test for "no exceedance" only
@@ -132,7 +141,7 @@ def run(chk):
 def _is_fallback(v):
     if v.kind == K_TUPLE and v.items is not None:
         return all(i.kind == K_NONE for i in v.items)
-    return v.has_const() and v.const == 0 and not v.tags
+    return v.has_const() and v.const == 0 and v.kind in (K_SCALAR, K_BOOL) and not (v.tags - frozenset(t for t in v.tags if t.startswith(("p:", "len-of", "where", "abs", "attr:", "arange"))))
 
 
 def _fallback_ok(v, se):
